@@ -1332,11 +1332,11 @@ VARIABLE_TYPE_MAP = {
 
 # Reference: https://openqasm.com/language/types.html#allowed-casts
 VARIABLE_TYPE_CAST_MAP = {
-    BoolType: (int, float, bool, np.int64, np.float64, np.bool_),
-    IntType: (bool, int, float, np.int64, np.float64, np.bool_),
-    BitType: (bool, int, np.int64, np.bool_),
+    BoolType: (int, float, bool, np.int64, np.uint64, np.float64, np.bool_),
+    IntType: (bool, int, float, np.int64, np.uint64, np.float64, np.bool_),
+    BitType: (bool, int, np.int64, np.uint64, np.bool_),
     UintType: (bool, int, float, np.int64, np.uint64, np.float64, np.bool_),
-    FloatType: (bool, int, float, np.int64, np.float64, np.bool_),
+    FloatType: (bool, int, float, np.int64, np.uint64, np.float64, np.bool_),
     AngleType: (float, np.float64),
 }
 
